@@ -15,6 +15,7 @@ Two ties of the Lean model (`Core/ClawAst.lean`, theorems in `Props/C05.lean`) t
 from __future__ import annotations
 
 import ast
+import collections
 import concurrent.futures as cf
 import copy
 import hashlib
@@ -24,9 +25,10 @@ import random
 import shutil
 import subprocess
 import tempfile
+import time
 from pathlib import Path
 
-from ..common import LEAN, PY, REPO, VERIF, Check, Explore, Failure, lean_driver, parse_sexp, sexp
+from ..common import LEAN, PY, REPO, VERIF, Check, Explore, Failure, lean_build, lean_driver, parse_sexp, run, sexp
 from ..impl import c05_ast as A
 from ..impl import c05_gen as G
 
@@ -87,13 +89,65 @@ def norm(x):
 # ---------------------------------------------------------------------------
 # the model
 # ---------------------------------------------------------------------------
+_NATIVE: dict = {}
+
+
+def native_driver() -> str | None:
+    """The model driver compiled to native code (same Lean source as `lean --run MainC05.lean`, ~10x faster).
+    Uses the `c05driver` lean_exe target when lean/lakefile.toml declares it; otherwise compiles the C files lake
+    emitted for the driver's modules with `leanc` into lean/.lake/build/bin (cached by content hash)."""
+    if 'exe' in _NATIVE:
+        return _NATIVE['exe']
+    _NATIVE['exe'] = None
+    try:
+        ok, log = lean_build(['BearVerif.Driver.C05', 'BearVerif.Core.Loop'])
+        if not ok:
+            return None
+        ir = LEAN / '.lake/build/ir/BearVerif'
+        cs = [ir / 'Driver/C05.c', ir / 'Core/ClawAst.c', ir / 'Core/Sexp.c', ir / 'Core/Loop.c']
+        main = LEAN / 'MainC05.lean'
+        h = hashlib.sha1(b''.join(f.read_bytes() for f in cs + [main])).hexdigest()[:16]
+        exe = LEAN / '.lake/build/bin' / f'c05driver-{h}'
+        if not exe.exists():
+            tmp = Path(tempfile.mkdtemp(prefix='c05drv_'))
+            try:
+                rc, out, err = run(['lake', 'env', 'lean', '-c', str(tmp / 'MainC05.c'), 'MainC05.lean'], cwd=LEAN, timeout=600)
+                if rc != 0:
+                    return None
+                rc, out, err = run(['leanc', '-O2', '-o', str(tmp / 'drv'), str(tmp / 'MainC05.c')] + [str(c) for c in cs],
+                                   cwd=LEAN, timeout=900)
+                if rc != 0:
+                    return None
+                exe.parent.mkdir(parents=True, exist_ok=True)
+                shutil.move(str(tmp / 'drv'), str(exe))
+            finally:
+                shutil.rmtree(tmp, ignore_errors=True)
+        _NATIVE['exe'] = str(exe)
+    except Exception:
+        _NATIVE['exe'] = None
+    return _NATIVE['exe']
+
+
+def driver_lines(lines: list[str]) -> list[str]:
+    if '"c05driver"' in (LEAN / 'lakefile.toml').read_text():
+        return lean_driver(lines, 'C05', exe='c05driver')
+    exe = native_driver()
+    if exe is None:
+        return lean_driver(lines, 'C05')
+    rc, out, err = run([exe], cwd=LEAN, input='\n'.join(lines) + '\n', timeout=3000)
+    res = out.splitlines()
+    if rc != 0 or len(res) != len(lines):
+        raise RuntimeError(f'native driver rc={rc} lines={len(res)}/{len(lines)} stderr={err[-1000:]}')
+    return res
+
+
 def lean_batch(items: list[tuple[list, list]]) -> list[dict]:
     """[(conf sexp, module mini-AST)] -> [{raises, xform, byhand, obs}]"""
     if not items:
         return []
     lines = [sexp(['c05', c, m]) for c, m in items]
     out = []
-    for line in lean_driver(lines, 'C05'):
+    for line in driver_lines(lines):
         v = parse_sexp(line)
         if v[0] != 'ok':
             raise RuntimeError(f'model driver rejected a request: {line[:200]}')
@@ -208,6 +262,40 @@ def clause_lines(body, path=''):
                     return r
         prev = s
     return None
+
+
+def branch_stats(body, stats, in_class=False, in_method=False, place=None):
+    """which corners of the rule the expected (hand-written) output exercises"""
+    for s in body:
+        k = s[0]
+        if k in ('fn', 'cl'):
+            decos = s[4] if k == 'fn' else s[3]
+            pos = [i for i, d in enumerate(decos) if d[0] == 'bt']
+            if pos:
+                i, n = pos[0], len(decos)
+                if n > 1:
+                    stats['added decorator ' + ('first' if i == 0 else 'last' if i == n - 1 else 'inside') + ' of an existing stack'] += 1
+            if k == 'fn':
+                if in_class:
+                    stats['method left to its class' if s[5] == '1' else 'unannotated method'] += 1
+                elif in_method and s[5] == '1':
+                    stats['function nested in a method decorated'] += 1
+                branch_stats(s[7], stats, False, in_class or in_method)
+            else:
+                stats['class nested in ' + ('class' if in_class else 'function' if in_method else 'module/other')] += 1
+                branch_stats(s[5], stats, True, False)
+        elif k == 'cp':
+            for b in s[4]:
+                branch_stats(b, stats, in_class, in_method)
+            if in_class:
+                stats['compound statement in a class body'] += 1
+        elif k == 'aa':
+            if in_class:
+                stats['annotated assignment in a class body (unchecked)'] += 1
+            elif s[5] == 'none':
+                stats['annotated name without value (unchecked)'] += 1
+        elif k == 'die':
+            stats['check after ' + {'n': 'name', 'a': 'attribute', 's': 'subscript'}[s[2][0]] + ' target'] += 1
 
 
 def kind_of(s):
@@ -338,7 +426,7 @@ def shrink_candidates(source: str):
         s = lst[i]
         variants = [[]]
         inner = getattr(s, 'body', None)
-        if isinstance(inner, list) and inner and isinstance(inner[0], ast.stmt) and not isinstance(node, ast.ClassDef):
+        if isinstance(inner, list) and inner and isinstance(inner[0], ast.stmt):
             variants.append(list(inner))
         if getattr(s, 'decorator_list', None):
             variants.append('nodeco')
@@ -394,21 +482,29 @@ def transform_keys(sources, kw, hookable, schema):
     return keys
 
 
+def key_class(key: str) -> str:
+    """clause + the innermost two path elements of the shape: what must be preserved while shrinking (the outer
+    nesting is exactly what shrinking removes; the final key is recomputed from the shrunk module)"""
+    parts = key.split(':')
+    rest = ':'.join(parts[2:])
+    return parts[1] + '|' + rest.split('>')[-1]
+
+
 def shrink_transform(source, kw, hookable, schema, key, rounds=40):
-    cur = source
+    cur, cls = source, key_class(key)
     for _ in range(rounds):
-        cands = [c for c in dict.fromkeys(x for x in shrink_candidates(cur) if x) if len(c) < len(cur) or c != cur][:400]
+        cands = [c for c in dict.fromkeys(x for x in shrink_candidates(cur) if x) if len(c) < len(cur)][:400]
         if not cands:
             break
         keys = transform_keys(cands, kw, hookable, schema)
-        nxt = [c for c, k in zip(cands, keys) if k == key]
+        nxt = [c for c, k in zip(cands, keys) if k is not None and key_class(k) == cls]
         if not nxt:
             break
         cur = min(nxt, key=len)
     return cur
 
 
-def explore_transform(ck, seed, n_struct, n_enum_stmts, extra_sources=(), shrink=True):
+def explore_transform(ck, seed, n_struct, n_enum_stmts, extra_sources=(), shrink=True, enum3=False):
     """-> (Explore-like dict)"""
     rng = random.Random(seed * 7919 + 5)
     schema = A.real_schema()
@@ -422,6 +518,10 @@ def explore_transform(ck, seed, n_struct, n_enum_stmts, extra_sources=(), shrink
     for j, src in enumerate(G.enum_small(n_enum_stmts)):
         kw, hk = confs_enum[j % len(confs_enum)]
         cases.append((src, kw, hk, 'enum'))
+    if enum3:
+        for j, src in enumerate(G.enum_small(3, small=True)):
+            kw, hk = confs_enum[(j // 3) % len(confs_enum)]
+            cases.append((src, kw, hk, 'enum3'))
     for src, kw in extra_sources:
         cases.append((src, {k: v for k, v in kw.items()}, True, 'runnable'))
     done, items = [], []
@@ -437,7 +537,8 @@ def explore_transform(ck, seed, n_struct, n_enum_stmts, extra_sources=(), shrink
         items.append((A.conf_sx(conf, schema), r['orig']))
     models = lean_batch(items)
     res = {'evaluations': len(done), 'skipped_uncompilable': skipped, 'failures': [], 'corr': [], 'shapes': set(),
-           'nontrivial': set(), 'kinds': {}, 'raised': 0, 'by_origin': {}, 'conf_cover': set(), 'samples': []}
+           'nontrivial': set(), 'kinds': {}, 'raised': 0, 'by_origin': {}, 'conf_cover': set(), 'samples': [],
+           'branches': collections.Counter()}
     seen_keys = {}
     for (src, kw, hk, origin, r), (csx, _), model in zip(done, items, models):
         res['by_origin'][origin] = res['by_origin'].get(origin, 0) + 1
@@ -456,6 +557,7 @@ def explore_transform(ck, seed, n_struct, n_enum_stmts, extra_sources=(), shrink
             res['nontrivial'].add(h)
         for s in norm(r['orig']):
             res['kinds'][kind_of(s)] = res['kinds'].get(kind_of(s), 0) + 1
+        branch_stats(out, res['branches'])
         f, c = judge_transform(src, kw, hk, r, csx, model)
         if c:
             c['conf'] = kw
@@ -463,16 +565,19 @@ def explore_transform(ck, seed, n_struct, n_enum_stmts, extra_sources=(), shrink
             res['corr'].append(c)
         if f:
             key, what, detail = f
-            seen_keys.setdefault(key, []).append((src, kw, hk, what, detail))
+            seen_keys.setdefault(key_class(key), []).append((src, kw, hk, what, detail, key))
         if len(res['samples']) < 3 and origin == 'struct' and nadd >= 2:
             res['samples'].append({'source': src[:600], 'conf': kw, 'hookable': hk})
-    for key, lst in list(seen_keys.items())[:8]:
-        src, kw, hk, what, detail = min(lst, key=lambda t: len(t[0]))
+    for cls, lst in list(seen_keys.items())[:8]:
+        src, kw, hk, what, detail, key = min(lst, key=lambda t: len(t[0]))
         small = shrink_transform(src, kw, hk, schema, key) if shrink else src
         conf, r2 = real_transform(small, kw, hk)
         m2 = lean_batch([(A.conf_sx(conf, schema), r2['orig'])])[0]
         f2, _ = judge_transform(small, kw, hk, r2, None, m2)
-        what2 = f2[1] if f2 and f2[0] == key else what
+        if f2 and key_class(f2[0]) == cls:
+            key, what2 = f2[0], f2[1]
+        else:
+            small, what2 = src, what
         res['failures'].append(Failure(
             key=key, what=f'[{len(lst)} module(s)] {what2}; smallest module:\n' + small.rstrip(),
             replay={'kind': 'transform', 'source': small, 'conf': kw, 'hookable': hk, 'oracle': key,
@@ -584,7 +689,7 @@ def write_tree(root: Path, module_source: str):
 def run_one(root: Path, mode: str, kw: dict) -> dict:
     env = dict(os.environ)
     env.update({'PYTHONPATH': str(REPO), 'PYTHONDONTWRITEBYTECODE': '1', 'PYTHONHASHSEED': '0'})
-    p = subprocess.run([PY, str(RUNNER), str(root), mode, json.dumps(kw)], capture_output=True, text=True, timeout=300,
+    p = subprocess.run([PY, '-S', str(RUNNER), str(root), mode, json.dumps(kw)], capture_output=True, text=True, timeout=300,
                        env=env, cwd=str(root))
     if p.returncode != 0 or not p.stdout.strip():
         raise RuntimeError(f'runner failed rc={p.returncode}: {p.stderr[-1500:]}')
@@ -640,7 +745,7 @@ def judge_behaviour(prog: dict, runs: dict, linemap: dict, model_differs: bool):
     # 2 each original expression exactly once (call-counting side effects)
     dup = []
     cp, ch = calls_of(plain['stdout']), calls_of(hook['stdout'])
-    if cp is not None and ch is not None and hook['exc'] is None:
+    if cp is not None and ch is not None and hook['exc'] is None and not hook['reached']:
         for t in dict.fromkeys(cp + ch):
             if cp.count(t) != ch.count(t):
                 dup.append((t, cp.count(t), ch.count(t)))
@@ -765,8 +870,6 @@ def shrink_behaviour(prog: dict, key: str, rounds: int = 4):
         start = next((i for i, s in enumerate(body) if isinstance(s, ast.Assign) and getattr(s.targets[0], 'id', '') == 'd'), pre_len) + 1
         cands = []
         for i in range(start, len(body) - 1):
-            t2 = copy.deepcopy(tree)
-            del t2.body[i]
             # keep line numbers: blank the statement's lines instead of unparsing
             lines = cur['source'].splitlines()
             s = body[i]
@@ -841,7 +944,7 @@ def explore_behaviour(ck, seed, n, shrink=True):
 
 
 # ---------------------------------------------------------------------------
-def explore(ck: Check, seed: int, n_struct: int, n_enum: int, n_prog: int) -> Explore:
+def explore(ck: Check, seed: int, n_struct: int, n_enum: int, n_prog: int, enum3: bool = False) -> Explore:
     ex = Explore(rule='(a) modules from the structural grammar (all nestings of def/async def/class/if/for/while/try/except*/with/'
                       'match, decorator stacks incl. decorator-hostile and beforelist imports/assignments, Name/Attribute/'
                       'Subscript/parenthesised targets, docstring and __future__ prefixes, 4 configuration options) + exhaustive '
@@ -850,8 +953,14 @@ def explore(ck: Check, seed: int, n_struct: int, n_enum: int, n_prog: int) -> Ex
                       'written rule adds >= 2 nodes besides the import AND some def/class/annotated assignment is nested in a '
                       'def/class/compound statement; distinct = distinct abstracted module shapes. non-trivial (b) = an '
                       'offending statement was reached, a decoration warning was emitted, or > 6 distinct side effects ran')
+    t0 = time.time()
     rb = explore_behaviour(ck, seed, n_prog)
-    rt = explore_transform(ck, seed, n_struct, n_enum, extra_sources=[(p['source'], p['conf']) for p in rb['progs']])
+    t1 = time.time()
+    rt = explore_transform(ck, seed, n_struct, n_enum, extra_sources=[(p['source'], p['conf']) for p in rb['progs']],
+                           enum3=enum3)
+    t2 = time.time()
+    ck.log(f'[C05] behaviour tie: {rb["evaluations"]} programs x 3 executions in {t1 - t0:.0f}s; transformer tie: '
+           f'{rt["evaluations"]} modules in {t2 - t1:.0f}s; corr_diffs={len(rt["corr"])}')
     ex.evaluations = rt['evaluations'] + 3 * rb['evaluations']
     ex.traces_validated = rt['evaluations'] + rb['evaluations']
     ex.distinct_nontrivial = len(rt['nontrivial']) + len(rb['nontrivial'])
@@ -863,11 +972,13 @@ def explore(ck: Check, seed: int, n_struct: int, n_enum: int, n_prog: int) -> Ex
         'transform_distinct_shapes': len(rt['shapes']), 'transform_nontrivial': len(rt['nontrivial']),
         'transform_raised_by_design': rt['raised'], 'transform_uncompilable_discarded': rt['skipped_uncompilable'],
         'transform_conf_combinations_hit': len(rt['conf_cover']), 'top_level_statement_kinds': rt['kinds'],
+        'rule_branches_hit': dict(rt['branches']),
         'behaviour_programs': rb['evaluations'], 'behaviour_executions': 3 * rb['evaluations'],
         'behaviour_families': rb['families'], 'behaviour_hooked_outcomes': rb['outcomes'],
         'behaviour_offending_statements_reached': rb['marks_reached'], 'behaviour_offending_kinds': rb['marks_kinds'],
         'behaviour_decor_warnings_seen': rb['warnings_seen'], 'behaviour_nontrivial': len(rb['nontrivial']),
         'behaviour_generator_rejects': rb['harness_rejects'],
+        'phase_seconds': {'behaviour': round(t1 - t0, 1), 'transform': round(t2 - t1, 1)},
     }
     if rb['harness_rejects']:
         ex.extra['behaviour_generator_reject_examples'] = rb.get('harness_msgs', [])[:3]
@@ -914,10 +1025,10 @@ def main(ck: Check) -> int:
     quick = ck.tier == 'quick'
     proof = ck.prove(MODULE, PROP_FILE)
     if quick:
-        ex = explore(ck, ck.seed, n_struct=1500, n_enum=2, n_prog=240)
+        ex = explore(ck, ck.seed, n_struct=1000, n_enum=2, n_prog=144)
     else:
-        ex = explore(ck, ck.seed, n_struct=12000, n_enum=3, n_prog=2000)
-    ck.decide(proof, ex, deep_search=lambda: explore(ck, ck.seed + 1, n_struct=6000, n_enum=2, n_prog=600))
+        ex = explore(ck, ck.seed, n_struct=12000, n_enum=2, n_prog=1500, enum3=True)
+    ck.decide(proof, ex, deep_search=lambda: explore(ck, ck.seed + 1, n_struct=6000, n_enum=2, n_prog=400, enum3=True))
     ck.evidence(
         proof, ex,
         level_note='Lean proofs over ALL modules of the mini-AST (structural induction over nested statement lists) for the '
